@@ -308,6 +308,7 @@ func runAPI(w *world) (res []opRes) {
 		shs[i] = &apiSharer{iface: distsys.NewMPCalContextWithoutArchetype().IFace(), phase: "idle", dirty: map[int]bool{}}
 	}
 	skip := opRes{St: "skip"}
+	holder := map[int]int{} // variable -> sharer whose handle has the lock (from the outcomes observed so far)
 	for _, op := range k.Ops {
 		name := op[0].(string)
 		i := int(op[1].(float64))
@@ -329,6 +330,8 @@ func runAPI(w *world) (res []opRes) {
 				})
 				if r.St != "ok" {
 					s.phase = "aborting" // Run: ErrCriticalSectionAborted -> abort()
+				} else {
+					holder[v] = i
 				}
 			}
 		case "cstart":
@@ -366,6 +369,9 @@ func runAPI(w *world) (res []opRes) {
 					return opRes{St: "ok"}
 				})
 				delete(s.dirty, v)
+				if h, ok := holder[v]; ok && h == i {
+					delete(holder, v)
+				}
 			}
 		case "end":
 			if (s.phase == "committing" || s.phase == "aborting") && len(s.dirty) == 0 {
@@ -373,8 +379,11 @@ func runAPI(w *world) (res []opRes) {
 				r = opRes{St: "ok"}
 			}
 		case "get":
+			// GetState takes the lock without a timeout: an observer asks only when nobody else holds it
 			v := int(op[2].(float64))
-			r = w.getState(w.raw[i][v])
+			if h, ok := holder[v]; !ok || h == i {
+				r = w.getState(w.raw[i][v])
+			}
 		}
 		res = append(res, r)
 		if r.St == "hang" {
@@ -557,6 +566,14 @@ func runCtx(w *world) (res []opRes, errs string) {
 		}
 	}
 	skip := opRes{St: "skip"}
+	holder := map[int]int{}
+	releaseAll := func(i int) {
+		for v, h := range holder {
+			if h == i {
+				delete(holder, v)
+			}
+		}
+	}
 	for _, op := range k.Ops {
 		name := op[0].(string)
 		i := int(op[1].(float64))
@@ -580,11 +597,15 @@ func runCtx(w *world) (res []opRes, errs string) {
 				case <-time.After(w.hangDur):
 					r = opRes{St: "hang"}
 				}
+				if r.St == "ok" {
+					holder[int(op[2].(float64))] = i
+				}
 				if r.St != "ok" && r.St != "hang" {
 					// the body returned the error: Run calls abort() and re-enters the body
 					if !park(s) {
 						r = opRes{St: "hang"}
 					}
+					releaseAll(i)
 				}
 			}
 		case "commit", "abort":
@@ -593,6 +614,7 @@ func runCtx(w *world) (res []opRes, errs string) {
 				case s.cmdCh <- cmd{kind: name}:
 					if park(s) {
 						r = opRes{St: "ok"}
+						releaseAll(i)
 					} else {
 						r = opRes{St: "hang"}
 					}
@@ -602,7 +624,9 @@ func runCtx(w *world) (res []opRes, errs string) {
 			}
 		case "get":
 			v := int(op[2].(float64))
-			r = w.getState(w.raw[i][v])
+			if h, ok := holder[v]; !ok || h == i {
+				r = w.getState(w.raw[i][v])
+			}
 		}
 		res = append(res, r)
 		if r.St == "hang" {
